@@ -18,7 +18,7 @@ PARTIAL by design.  Decided by:
    deadline and a memory watchdog).  Any panic / timeout / crash that is not a
    recorded finding is a violation with the input as replay.
 """
-import base64, json, os, re, resource, subprocess
+import base64, json, os, re, resource, shutil, subprocess, tempfile
 from concurrent.futures import ThreadPoolExecutor
 import vlib
 
@@ -361,6 +361,41 @@ def _j(rng, depth=0):
         return [_j(rng, depth + 1) for _ in range(rng.randrange(0, 4))]
     return {rng.choice(["a", "b", "c", "+@x", "+content", "+p_x", "+directive", "a.b", "a b", "", "0", "k[0]", "<", "x:y"]): _j(rng, depth + 1)
             for _ in range(rng.randrange(0, 4))}
+
+
+LONG_TEXTS = ["Les élèves étudient déjà à l'école où ça a été créé, près de la forêt âgée.",
+              "Die Größe der Straße überrascht die Mädchen, während Äpfel über die Brücke rollen.",
+              "これは十二文字以上の日本語のテキストですよ", "中文字符测试一二三四五六七八九十百千", "é" * 40, "日本" * 20, "ü" + "a" * 60 + "ß",
+              "\u200b\u00a0 Überraschung für alle Mädchen und Söhne \u200b\t", "\x01\x02 ça marche très bien, n'est-ce pas mon ami ? \x7f\x00",
+              "😀😀😀😀😀😀😀😀😀😀😀😀", "\ufeffÅngström ǅ ﬁ ﬂ ẞ ΐ — long dash text here, enough bytes"]
+
+
+def multibyte_input(fmt, t):
+    """A valid input of the format whose character data is the (long, multi-byte) text t."""
+    import json
+    t2 = t.replace("\x00", "").replace("\x01", "").replace("\x02", "")
+    if fmt == "xml":
+        esc = t2.replace("&", "&amp;").replace("<", "&lt;")
+        return ("<a x=\"%s\">\n  %s\n<b>%s</b><!-- %s --></a>" % (esc.replace('"', ""), esc, esc, esc.replace("--", ""))).encode()
+    if fmt == "json":
+        return json.dumps({"k": t, t2[:20]: [t]}, ensure_ascii=False).encode()
+    if fmt == "yaml":
+        return ("k: %s\n# %s\n" % (json.dumps(t2, ensure_ascii=False), t2.replace("\n", " "))).encode()
+    if fmt == "toml":
+        return ("k = %s\n" % json.dumps(t2, ensure_ascii=False)).encode()
+    if fmt in ("csv", "tsv"):
+        sep = "," if fmt == "csv" else "\t"
+        return ("a%sb\n%s%s1\n" % (sep, t2.replace(",", " ").replace("\t", " ").replace('"', ""), sep)).encode()
+    if fmt == "props":
+        return ("k = %s\n%s = 1\n" % (t2, t2[:12].replace(" ", "_").replace("=", ""))).encode()
+    if fmt == "lua":
+        return ("return {k = %s}" % json.dumps(t2, ensure_ascii=True)).encode()
+    if fmt == "base64":
+        return base64.b64encode(t.encode()) 
+    if fmt == "uri":
+        import urllib.parse
+        return urllib.parse.quote(t).encode()
+    return t.encode()
 
 
 def valid_input(rng, fmt):
@@ -899,6 +934,21 @@ def search_cases(chk, thorough):
             if b is not None:
                 reqs.append(mk_req(".", b, fmt, rng.choice(["yaml", "json"]), False))
                 streams.append("fmt-%s-deep" % fmt)
+    # long multi-byte character data (with non-graphic characters around it) in every input format, and through the decode operators
+    for fmt in IN_FORMATS:
+        for t in LONG_TEXTS:
+            b = multibyte_input(fmt, t)
+            for out in ("yaml", "json", "xml" if fmt != "xml" else "props"):
+                reqs.append(mk_req(".", b, fmt, out, False))
+                streams.append("fmt-%s-multibyte" % fmt)
+    for t in LONG_TEXTS:
+        x = multibyte_input("xml", t).decode("utf-8", "replace")
+        for e in ("from_xml", "@xmld", "from_xml | to_xml", "from_xml | .. | select(tag == \"!!str\") | length"):
+            reqs.append(mk_req(e, json.dumps(x, ensure_ascii=False) + "\n", "yaml", "yaml", False))
+            streams.append("fmt-xml-multibyte")
+        for e in ("trim", "upcase", "@base64 | @base64d", "@uri | @urid", "split(\" \") | join(\"-\")", "sub(\"[a-z]+\"; \"é\")", "test(\"é\")", "length", "@sh", "to_json | from_json"):
+            reqs.append(mk_req(e, json.dumps(t, ensure_ascii=False) + "\n", "yaml", "yaml", False))
+            streams.append("expr-multibyte")
     # results that encode to nothing or to ragged rows x every output format x printer flags
     # (-0/--nul-output, unwrap -r, -N/no separators, indent)
     for d in OUT_VALUES:
@@ -931,6 +981,61 @@ def search_cases(chk, thorough):
     return reqs, streams
 
 
+# ----------------------------------------------------------------------------
+# command-line flag combinations on the real binary
+# ----------------------------------------------------------------------------
+CLI_FILES = {"fm.md": "---\nname: post\ntitle: x\n---\nbody text\n", "d.yml": "name: doc\ntitle: t\nitems: [1, 2]\n---\nname: second\n",
+             "e.yml": "", "split.yq": ".name", "split_index.yq": "$index", "expr.yq": ".title = \"y\"", "bad.yq": ".[", "empty.yq": ""}
+
+
+def cli_cases(thorough):
+    """Every flag that has a `-file` twin in both spellings, crossed with the flags that change where input comes
+    from or where output goes."""
+    import itertools
+    cases = []
+    fronts = [[], ["--front-matter=process"], ["--front-matter=extract"], ["-f", "process"]]
+    splits = [[], ["-s", ".name"], ["-s", "$index"], ["--split-exp-file", "split.yq"], ["--split-exp-file", "split_index.yq"], ["--split-exp-file", "empty.yq"],
+              ["--split-exp-file", "missing.yq"]]
+    exprs = [[".title = \"y\""], ["--from-file", "expr.yq"], ["--expression", ".title = \"y\""], ["--from-file", "bad.yq"], ["--from-file", "missing.yq"], ["."]]
+    places = [[], ["-i"], ["-n"], ["-0"], ["-N"], ["-e"]]
+    cmds = [[], ["ea"]]
+    files = [["fm.md"], ["d.yml"], ["e.yml"], ["d.yml", "fm.md"], []]
+    for cmd, fr, sp, ex, pl in itertools.product(cmds, fronts, splits, exprs, places):
+        # keep the product small: at most two of the four flag groups are non-default unless thorough
+        nondefault = sum(1 for g in (fr, sp, pl) if g) + (1 if ex[0].startswith("--") else 0)
+        if not thorough and nondefault > 2 and not (fr and sp):
+            continue
+        for fl in (files if thorough else files[:2] + files[4:]):
+            cases.append(cmd + fr + sp + pl + ex + fl)
+    if not thorough:
+        # all combinations of a front-matter flag with a split flag, every third of the rest
+        cases = [c for i, c in enumerate(cases) if i % 3 == 0 or (any(x in c for x in ("--front-matter=process", "--front-matter=extract", "-f"))
+                                                                  and any(x in c for x in ("-s", "--split-exp-file")))]
+    return cases
+
+
+def run_cli(argv, timeout=10):
+    d = tempfile.mkdtemp(prefix="c11cli_", dir=vlib.WORK)
+    try:
+        for fn, txt in CLI_FILES.items():
+            with open(os.path.join(d, fn), "w") as f:
+                f.write(txt)
+
+        def lim():
+            resource.setrlimit(resource.RLIMIT_AS, (2000 << 20, 2000 << 20))
+        try:
+            p = subprocess.run([vlib.YQ] + argv, cwd=d, stdin=subprocess.DEVNULL, stdout=subprocess.PIPE, stderr=subprocess.PIPE, timeout=timeout, preexec_fn=lim)
+        except subprocess.TimeoutExpired:
+            return "timeout", ""
+        err = p.stderr.decode("utf-8", "replace")
+        if p.returncode not in (0, 1) or "goroutine " in err or err.startswith(("panic:", "fatal error:")):
+            m = re.search(r"/(?:pkg/yqlib|cmd)/([\w.]+\.go:\d+)", err)
+            return "panic", (m.group(1) if m else "") + " rc=%s %s" % (p.returncode, err[:200])
+        return ("ok" if p.returncode == 0 else "err"), ""
+    finally:
+        shutil.rmtree(d, ignore_errors=True)
+
+
 def classify(chk, known, req, resp, stream, stats, unknown):
     c = (resp or {}).get("class")
     if resp is None or c is None:
@@ -950,6 +1055,8 @@ def classify(chk, known, req, resp, stream, stats, unknown):
 
 
 def replay(rp):
+    if rp.get("kind") == "cli-matrix":
+        return run_cli(rp["argv"])[0] in ("ok", "err")
     if rp.get("kind") == "cli":
         cls, _, _ = real_binary(rp["argv"], rp.get("stdin", "").encode("utf-8", "surrogatepass"))
         return cls in ("ok", "err")
@@ -1065,6 +1172,20 @@ def run(chk):
             summ[g][k] += v
     chk.extra["distribution"] = summ
     chk.extra["known_hits"] = stats.get("known_hits", {})
+
+    # ---- 3b. command-line flag combinations on the real binary
+    cases = cli_cases(thorough)
+    with ThreadPoolExecutor(8) as ex:
+        cres = list(ex.map(run_cli, cases))
+    cstat, shown = {}, 0
+    for argv, (cls, detail) in zip(cases, cres):
+        chk.count(("cli", tuple(argv)), nontrivial=(cls != "err"))
+        cstat[cls] = cstat.get(cls, 0) + 1
+        if cls in ("panic", "timeout") and shown < 4:
+            shown += 1
+            chk.violation({"kind": "cli-matrix", "argv": argv, "files": CLI_FILES, "observed": cls + " " + detail}, True,
+                          "yq %s : %s %s" % (" ".join(argv), cls, detail[:160]))
+    chk.extra["cli_matrix"] = dict(cstat, cases=len(cases))
 
     # ---- 4. unknown failures: confirm alone (no load), then report
     reported = {}
